@@ -150,6 +150,7 @@ type pipeCfg struct {
 	script                           string
 	procs                            int
 	consumerDelayEvery, consumerWait int
+	steer                            *steerSpec // schedule steering of this run (c01trace.go); derived from the case line
 }
 
 type pipeResult struct {
@@ -166,6 +167,12 @@ var pipeSeq int
 func runPipe(c pipeCfg) pipeResult {
 	if c.procs > 0 {
 		defer runtime.GOMAXPROCS(runtime.GOMAXPROCS(c.procs))
+	}
+	if c.steer != nil { // the outcome must not depend on the interleaving: perturb it at the model's transitions
+		steerRunMu.Lock()
+		defer steerRunMu.Unlock()
+		extractor.VerifTraceSetProbe(c.steer.probe())
+		defer extractor.VerifTraceSetProbe(nil)
 	}
 	var b *batchers.Batcher
 	var cleanup func()
@@ -345,6 +352,14 @@ func pipeRun(f []string) string {
 		return "bad-op"
 	}
 	c := parsePipe(f)
+	// two runs in three are steered (jitter and/or a goroutine parked at a transition), chosen by the case line itself
+	h := uint64(14695981039346656037)
+	for _, b := range []byte(strings.Join(f, " ")) {
+		h = (h ^ uint64(b)) * 1099511628211
+	}
+	if sr := NewRand(mixSeed(h)); sr.Intn(3) != 0 && len(f[1]) < 200000 {
+		c.steer = genSteer(sr)
+	}
 	return pipeAnswer(c, runPipe(c))
 }
 
@@ -565,7 +580,7 @@ func pipeTailGen(r *Rand, tier string) []string {
 		for k := 0; k < nin; k++ {
 			var sb bytes.Buffer
 			head := Pick(r, []int{0, 0, 1, 2, 3, 5})
-			tail := batch * Pick(r, []int{1, 1, 2, 3}) + Pick(r, []int{0, 0, 1})
+			tail := batch*Pick(r, []int{1, 1, 2, 3}) + Pick(r, []int{0, 0, 1})
 			for j := 0; j < head; j++ {
 				sb.WriteString(Pick(r, append(append([]string{"x"}, matchedL...), matchedL...)) + "\n")
 			}
